@@ -95,7 +95,7 @@ def _gen_faults(r, plan, paths, in_rel, out_rel, single):
         f = None
         if kind == "undecodable":
             fl = next(x for x in plan["files"] if x["path"] == victim)
-            pos = r.randint(0, len(fl["lines"]))
+            pos = len(fl["lines"]) if r.random() < 0.5 else r.randint(0, len(fl["lines"]))
             fl["lines"].insert(pos, {"segs": [["lit", "bad "], ["bad", r.choice(["\xff", "\xc3\x28", "\xe2\x82", "\xf8\x88"])],
                                               ["lit", " tail"]], "eol": "\n"})
             plan["faults"].append({"kind": "undecodable", "path": victim})
@@ -206,8 +206,10 @@ def _first_lines(text, n):
 
 
 def _named(logs, level, abs_path):
+    """Is the file named in a record at WARNING or above?  (`level` kept for readability: the property
+    says "reported", it does not fix the level.)"""
     for lv, msg, tb in logs:
-        if lv == level and abs_path in msg.replace("/./", "/"):
+        if lv in ("WARNING", "ERROR", "CRITICAL") and abs_path in msg.replace("/./", "/"):
             return True
     return False
 
@@ -260,7 +262,9 @@ def check(plan):
         if q == in_rel or q.startswith("in/") or q == "in":
             viol("C16", "input-touched", "syscall %d: %s on input path %r" % (seq, op, path))
         elif q not in allowed:
-            viol("C16", "stray-write", "syscall %d: %s on %r, which mirrors no visible input file" % (seq, op, path))
+            # judged on what exists when the run ends or is killed (stray-file / stray-dir below): a scratch
+            # file that is renamed onto its mirror path is invisible unless the process dies in between
+            probes["transient_stray_mutations"] = probes.get("transient_stray_mutations", 0) + 1
     for p in inputs:
         if p in vanished:
             continue
